@@ -409,6 +409,52 @@ func doubleAsteriskDefineProcess(
 	return defineArgIdx, argIdx, nil
 }
 
+// requiredPositionalCt counts the positionals among names that have to
+// receive an argument; a keyword, rest, defaulted or block parameter
+// (c2json's "?Block" after "*args") does not
+func requiredPositionalCt(
+	m *MethodEvaluator,
+	methodT *base.T,
+	class string,
+	names []string,
+) int {
+
+	ct := 0
+	for _, name := range names {
+		if base.IsKeySuffix(name) || base.IsAsteriskPrefix(name) || base.IsAmpersandPrefix(name) {
+			continue
+		}
+
+		definedT := getDefinedArgT(m, methodT, class, name)
+
+		if definedT != nil && (definedT.HasDefault() || definedT.IsBlockType()) {
+			continue
+		}
+
+		ct++
+	}
+
+	return ct
+}
+
+func leadingPositionalArgTs(argTs []*base.T, argIdx int) []*base.T {
+	var positionalArgTs []*base.T
+
+	if argIdx > len(argTs) {
+		return positionalArgTs
+	}
+
+	for _, rt := range argTs[argIdx:] {
+		if rt.IsKeyValueType() {
+			break
+		}
+
+		positionalArgTs = append(positionalArgTs, rt)
+	}
+
+	return positionalArgTs
+}
+
 func asteriskDefineProcess(
 	m *MethodEvaluator,
 	class string,
@@ -422,31 +468,10 @@ func asteriskDefineProcess(
 	isStatic := methodT.IsStatic
 	asteriskArrayT := base.MakeAnyArray()
 
-	// positionals after the rest parameter that have to receive an argument;
-	// a defaulted or block parameter (c2json's "?Block" after "*args") does not
-	mustBindCt := 0
-	for _, name := range definedArgNames[defineArgIdx+1:] {
-		if base.IsKeySuffix(name) {
-			continue
-		}
+	mustBindCt :=
+		requiredPositionalCt(m, methodT, class, definedArgNames[defineArgIdx+1:])
 
-		trailingT := getDefinedArgT(m, methodT, class, name)
-
-		if trailingT != nil && (trailingT.HasDefault() || trailingT.IsBlockType()) {
-			continue
-		}
-
-		mustBindCt++
-	}
-
-	var positionalArgTs []*base.T
-	for _, rt := range argTs[argIdx:] {
-		if rt.IsKeyValueType() {
-			break
-		}
-
-		positionalArgTs = append(positionalArgTs, rt)
-	}
+	positionalArgTs := leadingPositionalArgTs(argTs, argIdx)
 
 	// the rest parameter of a user method learns its element types from the
 	// call; the rest parameter of a configured method keeps its declared type
@@ -624,6 +649,19 @@ func checkAndPropagateArgs(
 
 		definedArgT := getDefinedArgT(m, methodT, class, definedArg)
 
+		// Ruby binds the required positionals first: a defaulted positional
+		// only takes an argument that the required ones behind it can spare
+		if !isKeyTypeDefineArg && definedArgT.HasDefault() {
+			spareCt := len(leadingPositionalArgTs(sortedArgTs, argIdx)) -
+				requiredPositionalCt(m, methodT, class, sortedDfineArgs[defineArgIdx+1:])
+
+			if spareCt <= 0 {
+				defineArgIdx++
+
+				continue
+			}
+		}
+
 		if isNotDefineNamedArgError(
 			isKeyTypeDefineArg,
 			definedArgT,
@@ -687,7 +725,9 @@ func checkAndPropagateArgs(
 		if isNotAcceptIdx(sortedArgTs, argIdx) {
 			switch definedArgT.HasDefault() {
 			case true:
-				argIdx++
+				// nothing was consumed: the index stays at the end of the
+				// arguments, so that a rest parameter and the required
+				// positionals behind it are still looked at
 				defineArgIdx++
 
 				continue
